@@ -502,6 +502,7 @@ def full_rec(rec, prev_obs):
     return r
 
 
+MAX_REPORTED = 25     # VIOLATION lines per run (a broad regression fails thousands of histories)
 CHAIN = 32      # state-preserving operations of one state replayed in one scenario
 
 
@@ -556,6 +557,10 @@ class Family:
                 chain.append((rec,) + render_step(rec))
             su = o[0]["op"]["su"]["id"]
             self.count(su, chain[:-1], chain[-1], len(chain) - 1)
+            with self.stats["lock"]:
+                for c in chain[1:-1]:
+                    k = c[0]["op"]["k"]
+                    self.stats["kinds"][k] = self.stats["kinds"].get(k, 0) + 1
             self.submit(su, chain, len(chain))
 
     def flush(self):
@@ -677,7 +682,7 @@ def describe(recs, step, actual):
             "failing_step": step, "expected": exp, "actual": act, "diff": diff[:8]}
 
 
-def shrink(hbuf, recs, step, budget=6):
+def shrink(hbuf, recs, step, budget=4):
     """Deletes path operations before the failing step while the (model-re-evaluated) history still fails at
     its last step.  Returns (recs, step, actual) of the smallest failing history found."""
     cur = recs[:step + 1]
@@ -708,14 +713,27 @@ def shrink(hbuf, recs, step, budget=6):
 # ------------------------------------------------------------------ the check
 
 QUICK = [  # (name, cfg, workers)
-    ("G", "MCBuffers_G2.cfg", 3), ("E", "MCBuffers_E1.cfg", 2), ("C", "MCBuffers_C1.cfg", 2), ("O", "MCBuffers_O1.cfg", 1),
-    ("X", "MCBuffers_X1.cfg", 1), ("F", "MCBuffers_F1.cfg", 1)]
+    ("G", "MCBuffers_G1.cfg", 2), ("E", "MCBuffers_E1.cfg", 2), ("C", "MCBuffers_C1.cfg", 2), ("O", "MCBuffers_O1.cfg", 1),
+    ("X", "MCBuffers_X0.cfg", 1), ("F", "MCBuffers_F1.cfg", 1)]
 THOROUGH = [
     ("G", "MCBuffers_G3.cfg", 4), ("E", "MCBuffers_E2.cfg", 3), ("C", "MCBuffers_C1.cfg", 2), ("O", "MCBuffers_O2.cfg", 2),
     ("X", "MCBuffers_X2.cfg", 2), ("F", "MCBuffers_F2.cfg", 2)]
-ACTIONS = ["Resize", "Grow", "Transfer", "Detach", "BufSlice", "NewView", "NewDataView", "GetElem", "SetElem", "FloatCopy",
-           "Fill", "CopyWithin", "SetFromList", "SetFromTA", "Subarray", "Slice", "FromTA", "FromList", "DvGet", "DvSet"]
+SIMULATE = {"quick": (300, 1), "thorough": (1500, 3)}     # (number of random histories, TLC workers)
+KIND_ACTION = {"resize": "Resize", "grow": "Grow", "transfer": "Transfer", "detach": "Detach", "bslice": "BufSlice", "newview": "NewView",
+               "newdv": "NewDataView", "get": "GetElem", "set": "SetElem", "fcopy": "FloatCopy", "fill": "Fill", "cw": "CopyWithin",
+               "setarr": "SetFromList", "setta": "SetFromTA", "sub": "Subarray", "slice": "Slice", "fromta": "FromTA",
+               "fromlist": "FromList", "dvget": "DvGet", "dvset": "DvSet"}
 FLOOR = {"quick": 5000, "thorough": 30000}
+
+
+def sig_text(sig):
+    """Signatures are strings (vlib keys them): class-specific compact text."""
+    c = sig["class"]
+    if c == "conversion":
+        return f"conversion:{sig['op']}:{sig['src']}->{sig['dst']}:{sig['value']}"
+    if c == "abort":
+        return f"abort:{sig['op']}:side-effect={sig['side_effect']}:{sig['how']}"
+    return f"{c}:{sig['su']}:" + json.dumps(sig["ops"], sort_keys=True)
 
 
 def abort_class(how):
@@ -765,36 +783,30 @@ def analyse(ck, hbuf, failures):
         for meta, step, actual in failures[:3]:
             recs = meta["recs"][:step + 1] if step >= 0 else meta["recs"]
             sig = {"class": "chain-dependent", "su": recs[0]["op"]["su"]["id"], "ops": [op_sig(r["op"]) for r in recs[1:]]}
-            ck.failure(sig, {"note": "fails only after the preceding state-preserving operations", "ops": sig["ops"], "actual": actual})
+            ck.failure(sig_text(sig), {"note": "fails only after the preceding state-preserving operations", "ops": sig["ops"], "actual": actual})
         return
     # 2. signatures
     shrunk = 0
     for h, st, act, aborted in confirmed:
+        if len(ck.violations) >= MAX_REPORTED:
+            vlib.log(f"[C15] {len(confirmed)} failing histories; only the first {MAX_REPORTED} distinct signatures are reported")
+            break
         rec = h[st]
         if aborted:
             sig = {"class": "abort", "op": rec["op"]["k"], "side_effect": (rec["op"].get("ev") or {}).get("k", "none"),
                    "how": abort_class(str(act))}
-            ck.failure(sig, {"how": act, **describe(h, st, None)})
+            ck.failure(sig_text(sig), {"how": act, **describe(h, st, None)})
             continue
         js, exp = render_step(rec)
         sig = conversion_signature(rec, view_types(h, st), exp, act[st]["out"])
         if sig is None:
-            if shrunk < 25:
+            if shrunk < 4 and st > 1:
                 shrunk += 1
                 h2, st2, act2 = shrink(hbuf, h, st)
                 if act2 is not None:
                     h, st, act = h2, st2, act2
             sig = {"class": "behaviour", "su": h[0]["op"]["su"]["id"], "ops": [op_sig(r["op"]) for r in h[1:st + 1]]}
-        ck.failure(sig, describe(h, st, act))
-
-
-def coverage_counts(raw_tail):
-    """Per-action counts from TLC's -coverage output (lines `<Action line .. of module Buffers>: n:m`)."""
-    import re
-    out = {}
-    for m in re.finditer(r"^<(\w+) line \d+, col \d+ to line \d+, col \d+ of module Buffers>: (\d+):(\d+)", raw_tail, re.M):
-        out[m.group(1)] = out.get(m.group(1), 0) + int(m.group(3))
-    return out
+        ck.failure(sig_text(sig), describe(h, st, act))
 
 
 def run(tier, replay=None):
@@ -823,8 +835,8 @@ def run(tier, replay=None):
     t0 = time.time()
     threads = [threading.Thread(target=job, args=f) for f in fams]
     if not only or "R" in only.split(","):
-        threads.append(threading.Thread(target=job, args=("R", "MCBuffers_R.cfg", 1),
-                                        kwargs=dict(simulate=4000 if tier == "thorough" else 300, depth=13, tseed=vlib.seed())))
+        threads.append(threading.Thread(target=job, args=("R", "MCBuffers_R.cfg", SIMULATE[tier][1]),
+                                        kwargs=dict(simulate=SIMULATE[tier][0], depth=13, tseed=vlib.seed())))
     for t in threads:
         t.start()
     for t in threads:
@@ -869,16 +881,11 @@ def run(tier, replay=None):
             raise vlib.ToolError(f"vacuity guard: only {stats['tags'].get(t, 0)} histories tagged {t}")
     if stats["results"].get("TypeError", 0) < 100 or stats["results"].get("RangeError", 0) < 100:
         raise vlib.ToolError("vacuity guard: too few operations expected to throw")
-    if tier == "thorough":
-        cov = {}
-        for name, (r, _) in results.items():
-            for a, n in coverage_counts(r["raw_tail"]).items():
-                cov[a] = cov.get(a, 0) + n
-        ck.cov["tlc_coverage"] = cov
-    missing = [k for k in ("resize", "grow", "transfer", "detach", "bslice", "newview", "newdv", "set", "fcopy", "fill", "cw", "setarr",
-                           "setta", "sub", "slice", "fromta", "fromlist", "dvget", "dvset") if stats["kinds"].get(k, 0) == 0]
+    # every action of the specification must have been taken by TLC (one EDGE / REPLAY step = one action instance)
+    ck.cov["tlc_coverage"] = {KIND_ACTION[k]: n for k, n in sorted(stats["kinds"].items())}
+    missing = [a for k, a in KIND_ACTION.items() if stats["kinds"].get(k, 0) == 0]
     if missing:
-        raise vlib.ToolError(f"operations never exercised: {missing}")
+        raise vlib.ToolError(f"actions of Buffers.tla never taken: {missing}")
     ck.assumptions += [
         "numbers: integers of 32 bits, quarters, symbolic multiples of 2^32 up to 3.5e38, NaN, +-Infinity, -0, undefined; float "
         "element types, Float16 and BigInt64 only at byte level (same-type copies, bit-pattern round trips of non-NaN patterns)",
